@@ -41,6 +41,7 @@ def lib():
                 ctx[f"parity{idx % 2}"] = idx  # different samples record different key sets (stale entries visible)
                 if item == "a":
                     ctx["tca"] = f"tca{idx}"
+                    ctx["xa2"] = f"xa2{idx}"
                 if item == "b":
                     ctx["kb"] = f"kb{idx}"
             return f"{item}{idx}"
@@ -129,12 +130,12 @@ def stack_table():
 
 
 def modes(maxlen, items):
-    alpha = list(items) + ["index"] + (["ctx.tca"] if "a" in items else []) + (["ctx.kb"] if "b" in items else [])
+    alpha = list(items) + ["index"] + (["ctx.tca", "ctx.xa2"] if "a" in items else []) + (["ctx.kb"] if "b" in items else [])
     for L_ in range(1, maxlen + 1):
         for seq in itertools.product(alpha, repeat=L_):
             ok = True
             for p, it in enumerate(seq):
-                if it == "ctx.tca" and "a" not in seq[:p]:
+                if it in ("ctx.tca", "ctx.xa2") and "a" not in seq[:p]:
                     ok = False
                 if it == "ctx.kb" and "b" not in seq[:p]:
                     ok = False
@@ -173,6 +174,7 @@ def expected_ctx(seq, i):
         ctx[f"parity{i % 2}"] = i
         if it == "a":
             ctx["tca"] = f"tca{i}"
+            ctx["xa2"] = f"xa2{i}"
         if it == "b":
             ctx["kb"] = f"kb{i}"
     return ctx
